@@ -49,7 +49,7 @@ def configs(tier):
     for sh in shapes:
         for axis in (0, 1, (0, 1)):
             for kind in ('dict', 'list', 'alias'):
-                for nj in (1, 2, 5):
+                for nj in (1, 2, 4, 5):
                     if ntasks(sh, axis) > 6 and nj > 2:
                         continue        # 9 tasks with >2 workers: too many orders; covered with 1 and 2 workers
                     out.append((sh, axis, kind, nj, '3d', 'virtual'))
@@ -176,7 +176,10 @@ class Schedules3D(Space):
                     saved, sched.VirtualPool.order = sched.VirtualPool.order, None
                     bg.fit(other, FS, FR, axis=(0, 1), n_jobs=1)
                     sched.VirtualPool.order = saved
-                bg.fit(arr(), FS, FR, axis=axis, n_jobs=nj)
+                if (n0 + n1 + nj) % 2:
+                    bg.fit(arr(), FS, FR, axis, nj)          # axis and n_jobs passed positionally (documented order)
+                else:
+                    bg.fit(arr(), FS, FR, axis=axis, n_jobs=nj)
                 return bg.df_features, bg
         try:
             if c['executor'] == 'virtual':
@@ -184,6 +187,8 @@ class Schedules3D(Space):
                     got, obj = run()
                     if sched.VirtualPool.constructed == 0:
                         extra['seam_not_exercised'] = 1
+                    if sched.VirtualPool.mismatch:
+                        extra['schedule_not_applicable_task_count_differs'] = 1
             else:
                 if axis == 0:
                     keys = [np.ascontiguousarray(sigs[i]).tobytes() for i in range(n0)]
